@@ -141,6 +141,26 @@ EXTRA4 = {
  "C20": " Also: MessageHashesMap.Erase leaves its loop over the ids only by exhaustion.",
 }
 
+EXTRA5 = {
+ "C01": " Also: the responder queue is reset on every path to the installation of a new snapshot (unless no snapshot was set).",
+ "C02": " Also: a list of updates obtained inside a loop is consumed before the loop comes round again; State.HasMessage is not consulted inside internal/state.",
+ "C03": " Also: the pairs a MOVE adds and the internal ids it removes are two views of one list (db.SplitMessageIDPairSlice of the same value).",
+ "C06": " Also: the update appliers consume every list of state updates a call returns, on every path and in every loop iteration.",
+ "C07": " Also: unchecked flag lookups use lower-case keys (shared with C03).",
+ "C08": " Also: a loop over statement batches (xslices.Chunk) cannot be left early into a success.",
+ "C09": " Also: an entry leaves the lock table (and returns to the pool) only on a reference-count read made while the table lock is held.",
+ "C10": " Also: no argument is refused by the command parser for its length.",
+ "C11": " Also: the offsets recorded for a header entry are proved <= len(header); subtractive indices are proved non-negative (shared with C12).",
+ "C12": " Also: the offsets recorded for a header entry (valueStart / valueEnd) are proved <= len(header).",
+ "C13": " Also: whether ScanAll records a scanned part depends only on the nil test (an empty part keeps its number).",
+ "C14": " Also: a prefix test on a mailbox name is not guarded more strictly than the slice needs (the name that is exactly the prefix is covered).",
+ "C15": " Also: the statement behind GetMessageDateAndSize selects by the message id alone.",
+ "C16": " Also: only the resolver functions read the bounds of a command.SeqRange.",
+ "C18": " Also: the repository's own connector compares the password bytes without case folding or normalising.",
+ "C19": " Also: a consumer of a handed response channel returns only after it has seen the channel closed (directly or through a drainer it calls).",
+ "C20": " Also: the id of every imported recovered message is consumed on every non-failing path of the copy/move-out loop.",
+}
+
 for i in ids:
     if i in impl and i in T:
         lt, ln, tech, ref = T[i]
@@ -151,7 +171,7 @@ for i in ids:
             "evidence_file": f"evidence/{i}.json",
             "replay_cmd_template": "./bin/verifcheck -replay {path}",
             "engine": "verifcheck",
-            "level_claimed": {"category": "other", "text": lt + EXTRA.get(i, "") + EXTRA3.get(i, "") + EXTRA4.get(i, ""), "design_ref": ref},
+            "level_claimed": {"category": "other", "text": lt + EXTRA.get(i, "") + EXTRA3.get(i, "") + EXTRA4.get(i, "") + EXTRA5.get(i, ""), "design_ref": ref},
             "level_note": ln,
             "technique": tech,
         })
